@@ -149,6 +149,7 @@ def collect_verus_units(prop, repo, scratch, only=None):
             all_props.add('C04') if sc.get('error_is_c04', True) else None
         if sc.get('c06_ensures'):
             all_props.add('C06')
+        all_props.update(sc.get('guard_fact_props', []))
         if prop not in all_props:
             continue
         op = sc['op']
